@@ -60,8 +60,9 @@ ASSUMPTIONS = [
     'tiles are a subset of an earlier call inside one regular meta tile are judged; other double coverage is only counted',
     '"do not block each other": a failed lock attempt is a violation when holder and waiter need no common (cache, level, '
     'regular meta tile); with minimize_meta_requests the needed meta tiles are those of the bounding box of the request',
-    'bulk_meta_tiles together with minimize_meta_requests (C04 known finding, fails without any concurrency) is not generated; '
-    'meta_buffer stays below the tile size (the clipped-bbox de-duplication finding of C04 is out of reach)',
+    'bulk_meta_tiles together with minimize_meta_requests is generated only while the C04 finding about that combination (fails '
+    'without any concurrency) is not open; it is judged like plain bulk_meta_tiles (one upstream call per tile); meta_buffer stays '
+    'below the tile size',
     'tile sets handed to load_tile_coords are full rectangles without duplicates, all of one level (what TMS/WMTS/WMS callers pass)',
     'liveness is checked as: no deadlock under the scheduler (a run that exceeds the step bound is inconclusive)',
     'threads started by the code under test (concurrent_tile_creators=2: mapproxy.util.async_.ThreadPool workers) are adopted by '
@@ -74,6 +75,7 @@ RES = [4.0, 2.0, 1.0]
 SRS = 'EPSG:3857'
 EPS = 3
 MAX_STEPS = 4000
+SIG_C04_BULK_MIN = 'C04/exception/InvalidSourceQuery/bulk-minimized'
 SIG_RACE = 'C08/response/no-image/cached-between-load-and-is_cached'
 
 _G = {}
@@ -1154,7 +1156,8 @@ def cases(draw):
         meta_size = draw(st.sampled_from([[1, 1], [2, 2], [2, 1], [3, 2]]))
         meta_buffer = 0
         bulk = meta_size != [1, 1]
-        minimize = False          # bulk + minimize: C04 known finding, fails sequentially
+        # bulk + minimize failed without any concurrency while the C04 finding was open (minimize is ignored for bulk now)
+        minimize = False if SIG_C04_BULK_MIN in core.open_signatures('C04') else draw(st.sampled_from([False, False, True]))
     cfg = {
         'deploy': draw(st.sampled_from(['threads', 'procs'])),
         'cache': draw(st.sampled_from(['file', 'file', 'sqlite'])),
